@@ -9,6 +9,8 @@ $VERIF_OUT.
   p.lr  <s0,s1,...> <start> <size>   locators_and_ranges on blocks of the given sizes (locator b<i>)
   p.fb  <s0,s1,...> <start>    first_block on blocks of the given sizes
   p.esc <hexname>              escape
+  p.rr  <w1;w2;...> <start> <size>   replace_range for every write w = start,size,k,off (locator b<k>) in turn on
+                               one list that starts empty, then the list and locators_and_ranges(list, start, size)
 
 The tokenizer below (split on newline / space, unescape of \\ooo) is harness code, not Arvados
 code: the anchored Python modules are a range mapper and a normalizer, not a parser.
@@ -113,6 +115,14 @@ def case(line):
         if f[0] == "p.fb" and len(f) == 3:
             r = R.first_block(blocks_of(f[1]), int(f[2]))
             return "none" if r is None else str(r)
+        if f[0] == "p.rr" and len(f) == 4:
+            dl = []
+            if f[1] != "-":
+                for w in f[1].split(";"):
+                    a, b, k, o = (int(x) for x in w.split(","))
+                    R.replace_range(dl, a, b, "b%d" % k, o)
+            lst = ",".join("%s:%d:%d:%d" % (r.locator, r.range_start, r.range_size, r.segment_offset) for r in dl) or "-"
+            return "ok " + lst + " " + segs_str(R.locators_and_ranges(dl, int(f[2]), int(f[3])))
         if f[0] == "p.esc" and len(f) == 2:
             return hx(N.escape(unhex(f[1])))
     except Exception as e:  # an exception is the Python analogue of a panic
